@@ -169,7 +169,7 @@ func runUnit(spec *Spec, o *checkOpts, openKnown map[string]bool, openList []Kno
 			defer func() { <-sem; wg.Done() }()
 			mk := func(probe string, kn map[string]bool) *sym.Program {
 				p := &sym.Program{Prog: l.prog, Harness: l.harness, Redirects: redirects, Params: cfg.Params, Known: kn, Probe: probe,
-					Unwind: cfg.Unwind, MaxSteps: cfg.MaxSteps, MaxDepth: 400, SolverBin: o.solverBin, SolverArg: []string{"-in"}, TimeoutMS: cfg.Timeout, FastTimeoutMS: 2000, Trace: o.trace, Logic: cfg.Logic, SQLSchema: schemaPath}
+					Unwind: cfg.Unwind, MaxSteps: cfg.MaxSteps, MaxDepth: 400, SolverBin: o.solverBin, SolverArg: []string{"-in"}, TimeoutMS: cfg.Timeout, FastTimeoutMS: 2000, Trace: o.trace, Logic: cfg.Logic, SQLSchema: schemaPath, Goroutines: spec.Goroutines}
 				if p.Unwind == 0 {
 					p.Unwind = 64
 				}
